@@ -141,7 +141,9 @@ def members_and_results():
     child = next(t for t in proj.types if t.name == "child_t")
     fn = next(p for p in proj.procedures if p.name == "f")
     bad = []
-    for text, ctx, want in (("[[child_t:act]]", child, None), ("[[child_t:n]]", child, None), ("[[res]]", fn, "proc/f.html#variable-res"), ("[[f:res]]", fn, "proc/f.html#variable-res")):
+    for text, ctx, want in (("[[child_t:act]]", child, None), ("[[child_t:n]]", child, None), ("[[res]]", fn, "proc/f.html#variable-res"), ("[[f:res]]", fn, "proc/f.html#variable-res"),
+                            # the kind qualifier `variable` reaches everything that is a variable of the procedure: locals, dummy arguments, the result
+                            ("[[f(function):res(variable)]]", fn, "proc/f.html#variable-res"), ("[[f:x(variable)]]", fn, "proc/f.html#variable-x"), ("[[f:x]]", fn, "proc/f.html#variable-x")):
         got, out = href(md, text, ctx)
         norm = None if got is None else re.sub(r"^(\./|\.\./)+", "", got)
         if norm != want:
